@@ -24,12 +24,12 @@ import (
 //   * a user actor tree of <= 4 actors (all 9 rooted forests on <= 4 nodes that are not mere
 //     relabelings, one Explore scenario per shape) spawned with Spawn / SpawnChild;
 //   * X  = the actor whose handler is parked inside a gate message, with two more messages queued
-//          behind it (chosen among the actors);
+//          behind it (chosen among the actors); thorough tier: optionally a second actor X2 parked too;
 //   * Y  = optionally an actor whose PostStop parks in a gate (so that ActorSystem.Stop is held in the
 //          middle of the tree teardown: some actors already stopped, others not yet);
 //   * G  = 0..2 active grains, each with a parked OnReceive (sent with TellGrain from a client goroutine)
 //          and one more TellGrain queued behind it;
-//   * events {stop, relX, relY, relG1, relG2}: `stop` starts ActorSystem.Stop on a client goroutine,
+//   * events {stop, relX, relX2, relY, relG1, relG2}: `stop` starts ActorSystem.Stop on a client goroutine,
 //     `rel*` opens the gate. EVERY permutation of the events is executed (vsched.Explore, all choices
 //     cost 0). After every event the bubble is settled (quiescence) and every user actor whose PostStop
 //     has already returned is probed with Tell.
@@ -150,7 +150,7 @@ type c17Probe struct {
 	err     error
 }
 
-func c17Run(t *testing.T, shape c17Shape, c *vsched.Chooser) vsched.Outcome {
+func c17Run(t *testing.T, shape c17Shape, twoParked bool, c *vsched.Chooser) vsched.Outcome {
 	n := len(shape.parent)
 	x := c.Choose("env", n, nil, func(i int) string { return "gated-handler=" + c17Names[i] })
 	y := c.Choose("env", n+1, nil, func(i int) string {
@@ -160,8 +160,31 @@ func c17Run(t *testing.T, shape c17Shape, c *vsched.Chooser) vsched.Outcome {
 		return "gated-poststop=" + c17Names[i-1]
 	}) - 1
 	ng := c.Choose("env", 3, nil, func(i int) string { return fmt.Sprintf("grains=%d", i) })
+	// thorough tier only: a second actor X2 != X parked inside Receive (no queue behind it)
+	x2 := -1
+	if twoParked && n > 1 {
+		k := c.Choose("env", n, nil, func(i int) string {
+			if i == 0 {
+				return "second-gated-handler=none"
+			}
+			o := i - 1
+			if o >= x {
+				o++
+			}
+			return "second-gated-handler=" + c17Names[o]
+		})
+		if k > 0 {
+			x2 = k - 1
+			if x2 >= x {
+				x2++
+			}
+		}
+	}
 
 	events := []string{"stop", "relX"}
+	if x2 >= 0 {
+		events = append(events, "relX2")
+	}
 	if y >= 0 {
 		events = append(events, "relY")
 	}
@@ -243,6 +266,13 @@ func c17Run(t *testing.T, shape c17Shape, c *vsched.Chooser) vsched.Outcome {
 			panic(err)
 		}
 		vfSettle() // X is parked inside the gate message
+		gateX2 := make(chan struct{})
+		if x2 >= 0 {
+			if err := Tell(ctx, pids[x2], &c17Gate{ch: gateX2}); err != nil {
+				panic(err)
+			}
+			vfSettle()
+		}
 		for k := 1; k <= 2; k++ {
 			if err := Tell(ctx, pids[x], &c17Msg{id: fmt.Sprintf("q%d", k)}); err != nil {
 				panic(err)
@@ -274,6 +304,8 @@ func c17Run(t *testing.T, shape c17Shape, c *vsched.Chooser) vsched.Outcome {
 			switch ev {
 			case "relX":
 				close(gateX)
+			case "relX2":
+				close(gateX2)
 			case "relY":
 				close(actors[y].postGate)
 			case "relG1":
@@ -493,10 +525,10 @@ func TestVerifC17(t *testing.T) {
 		}
 		scs = append(scs, vsched.Scenario{
 			Cfg: vsched.Config{Scenario: "stop-" + sh.name, Bound: 0, SplitDepth: 3, Params: map[string]any{
-				"tree_parent_index": fmt.Sprint(sh.parent), "events": "all permutations of {stop, relX, relY?, relG1?, relG2?}",
-				"choices": "gated handler actor x gated PostStop actor (or none) x 0..2 grains x event order",
+				"tree_parent_index": fmt.Sprint(sh.parent), "events": "all permutations of {stop, relX, relX2?, relY?, relG1?, relG2?}",
+				"choices": "gated handler actor x gated PostStop actor (or none) x 0..2 grains x (thorough: second gated handler actor or none) x event order",
 			}},
-			Run: func(c *vsched.Chooser) vsched.Outcome { return c17Run(t, sh, c) },
+			Run: func(c *vsched.Chooser) vsched.Outcome { return c17Run(t, sh, r.Thorough(), c) },
 		})
 	}
 	vsched.ExploreAll(scs)
